@@ -28,5 +28,12 @@ CHECKS = {
         design_ref="DESIGN.md section 3, C12",
         note="trusted base: CPython, NumPy, Awkward, the harness; NaN-free operands; mixed-system truth values are taken from the implementation (only coherence is asserted there)",
     ),
+    "C06": dict(
+        engine="lattice",
+        technique="exhaustive enumeration of all 16 664 name subsets (<= 5 of 19 names) x 11 constructors, plus value-kind and unknown-name variants of every accepted set, against a recogniser of the documented constructor grammar (M_ctor)",
+        text="Every subset of up to five of the 19 recognised coordinate names is passed, with a distinct tag value per name, to vector.obj, the six object classes, vector.array (dict and dtype forms), vector.zip and vector.Array; acceptance, exception type, dimension, coordinate system, flavor and verbatim storage are compared with a 30-line grammar model, and the array constructors with the weaker contract of the statement and with vector.obj. Accepted sets are re-run with every value kind at every position and with unknown names appended.",
+        design_ref="DESIGN.md section 3, C06",
+        note="trusted base: the grammar recogniser m_ctor (mc/props/C06.py); finite numeric tag values only",
+    ),
 }
 NOT_YET = {}
